@@ -3,6 +3,7 @@ package main
 import (
 	"fmt"
 	"go/constant"
+	"go/token"
 	"go/types"
 	"math/big"
 	"strconv"
@@ -162,8 +163,12 @@ func (e *Enc) compile(c *SpecCtx, x *Expr) CE {
 			if !ok {
 				fail("%s: dereference of non-pointer %s", c.what, x.Args[0])
 			}
-			pl := a.P
-			if pl == nil {
+			// a.P with an empty term is an interior pointer (its place is the
+			// pointee); otherwise a.P is the lvalue holding the pointer itself
+			var pl *Place
+			if a.T == "" && a.P != nil {
+				pl = a.P
+			} else {
 				pl = &Place{Kind: PDeref, Ptr: a.T, Typ: pt.Elem()}
 			}
 			return CE{T: e.getPlace(c.st, pl), Typ: pt.Elem(), P: pl}
@@ -189,6 +194,12 @@ func (e *Enc) compile(c *SpecCtx, x *Expr) CE {
 		}
 		vn := e.B.freshName("q." + x.Var)
 		body := e.compileBool(c.bindName(x.Var, CE{T: vn, Typ: typ}), x.Args[0])
+		if x.Op == "forall" {
+			// instantiation triggers: every "(select <atom> <var>)" in the body
+			if pats := selectPatterns(body, vn); len(pats) > 0 {
+				body = "(! " + body + " " + strings.Join(pats, " ") + ")"
+			}
+		}
 		return CE{T: fmt.Sprintf("(%s ((%s %s)) %s)", x.Op, vn, srt, body), Typ: tBool}
 	case "bin":
 		return e.compileBin(c, x)
@@ -600,6 +611,15 @@ func (e *Enc) compileCallExpr(c *SpecCtx, x *Expr) CE {
 			fail("%s: update() on non-ghost-map", c.what)
 		}
 		return CE{T: fmt.Sprintf("(store %s %s %s)", m.T, k.T, v.T), Arr: m.Arr}
+	case "chanof": // chanof(ch, "T"): ch is nil or a channel with element type T
+		argn(2)
+		a := e.compile(c, x.Args[0])
+		t := e.lookupType(x.Args[1].Lit)
+		if t == nil {
+			fail("%s: unknown type %s", c.what, x.Args[1].Lit)
+		}
+		e.B.declTop("chtype", "(declare-fun chtype (Int) Int)")
+		return CE{T: fmt.Sprintf("(or (= %s 0) (= (chtype %s) %d))", a.T, a.T, e.B.typeID(t)), Typ: tBool}
 	case "slicein": // slicein(x): the []byte held by interface value x
 		argn(1)
 		a := e.compile(c, x.Args[0])
@@ -702,6 +722,9 @@ func (e *Enc) lookupType(name string) types.Type {
 		if tn, ok := obj.(*types.TypeName); ok {
 			return tn.Type()
 		}
+	}
+	if tv, err := types.Eval(e.L.Prog.Fset, e.L.Pkg.Pkg, token.NoPos, name); err == nil && tv.IsType() {
+		return tv.Type
 	}
 	if i := strings.LastIndex(name, "."); i > 0 {
 		pkgName, tn := name[:i], name[i+1:]
